@@ -71,10 +71,9 @@ theorem planPre_parent {L k : Nat} {rs : Ranges} (hne : rs ≠ []) (hlt : nodeOf
 theorem isEmpty_eq_true_iff {rs : Ranges} : rs.isEmpty = true ↔ rs = [] := by
   cases rs <;> simp
 
-theorem leftPlan_ne_nil_iff (g : Geo size bs filled) {L k : Nat} {rs : Ranges}
+theorem leftPlan_ne_nil_iff (_g : Geo size bs filled) {L k : Nat} {rs : Ranges}
     (hlt : nodeOf k L < filled) :
     leftPlan size bs ml filled root L k rs ≠ [] ↔ lq bs L k rs ≠ [] := by
-  have _ := g
   cases L with
   | zero =>
     rw [leftPlan_zero]
@@ -182,5 +181,407 @@ theorem parent_occurrence {L0 k0 : Nat} {rs0 : Ranges} {pre tail : List Chunk} {
       Chunk.parent node ir lf rf rs = nodeParent bs root L k rs ∧
       Chunk.parent node ir lf rf rs :: tail = planPre size bs ml filled root L k rs ++ post :=
   parent_occurrence_aux L0 k0 rs0 pre tail h
+
+/-! ## (4) hash-stack discipline -/
+
+/-- run the decoder's hash stack over a plan, starting with `h` expected hashes: every item pops
+one, a parent pushes one per set flag; `none` = pop from an empty stack -/
+def stackRun : Nat → List Chunk → Option Nat
+  | h, [] => some h
+  | h, .parent _ _ l r _ :: rest =>
+    if h = 0 then none else stackRun (h - 1 + (if l then 1 else 0) + (if r then 1 else 0)) rest
+  | h, .leaf _ _ _ _ :: rest => if h = 0 then none else stackRun (h - 1) rest
+
+theorem stackRun_leaf (h s z : Nat) (r : Bool) (x : Ranges) (rest : List Chunk) :
+    stackRun (h + 1) (Chunk.leaf s z r x :: rest) = stackRun h rest := by
+  simp [stackRun]
+
+theorem stackRun_parent (h n : Nat) (ir l r : Bool) (x : Ranges) (rest : List Chunk) :
+    stackRun (h + 1) (Chunk.parent n ir l r x :: rest) =
+      stackRun (h + (if l then 1 else 0) + (if r then 1 else 0)) rest := by
+  simp [stackRun]
+
+theorem stackRun_nodeParent (h L k : Nat) (rs : Ranges) (rest : List Chunk) :
+    stackRun (h + 1) (nodeParent bs root L k rs :: rest) =
+      stackRun (h + (if (lq bs L k rs).isEmpty then 0 else 1) +
+        (if (rq bs L k rs).isEmpty then 0 else 1)) rest := by
+  unfold nodeParent
+  rw [stackRun_parent]
+  have e : ∀ a : Bool, (if (!a) = true then 1 else 0 : Nat) = if a = true then 0 else 1 := by
+    intro a; cases a <;> rfl
+  rw [e, e]; rfl
+
+theorem stackRun_planPre (g : Geo size bs filled) (L k : Nat) (rs : Ranges) (hne : rs ≠ [])
+    (hs : startOf k L < filled) (h : Nat) (rest : List Chunk) :
+    stackRun (h + 1) (planPre size bs ml filled root L k rs ++ rest) = stackRun h rest := by
+  revert hne hs h rest
+  refine planPre_induct (size := size) (bs := bs) (ml := ml) (filled := filled) (root := root)
+    (P := fun L k rs p => rs ≠ [] → startOf k L < filled → ∀ (h : Nat) (rest : List Chunk),
+      stackRun (h + 1) (p ++ rest) = stackRun h rest) ?_ ?_ ?_ ?_ ?_ ?_ ?_ L k rs
+  · intro L k h; exact absurd rfl h
+  · intro k rs _ hge _ hs
+    have : startOf k 0 = nodeOf k 0 := by rw [Offsets.startOf_zero, Offsets.nodeOf_zero]
+    omega
+  · intro L k rs hne _ ih _ hs
+    exact ih hne (by rw [Bits.startOf_left]; exact hs)
+  · intro L k rs _ _ _ _ _ h rest
+    exact stackRun_leaf ..
+  · intro k rs _ _ _ _ _ _ h rest
+    exact stackRun_leaf ..
+  · intro k rs _ _ _ _ _ _ h rest
+    rw [List.cons_append, stackRun_nodeParent]
+    by_cases h1 : (lq bs 0 k rs).isEmpty = true <;> by_cases h2 : (rq bs 0 k rs).isEmpty = true <;>
+      simp [h1, h2, leftLeaf, rightLeaf, stackRun_leaf]
+  · intro L k rs _ hlt _ ih1 ih2 _ _ h rest
+    rw [List.cons_append, stackRun_nodeParent, List.append_assoc]
+    have hsl : startOf (2 * k) L < filled := by
+      rw [Bits.startOf_left]
+      exact Nat.lt_of_le_of_lt (startOf_le_nodeOf k (L + 1)) hlt
+    have hsr : startOf (2 * k + 1) L < filled := g.right_exists hlt
+    by_cases h1 : lq bs (L + 1) k rs = [] <;> by_cases h2 : rq bs (L + 1) k rs = []
+    · simp [h1, h2]
+    · have e2 := isEmpty_eq_false h2
+      rw [h1, planPre_nil, List.nil_append, e2]
+      simpa using ih2 h2 hsr h rest
+    · have e1 := isEmpty_eq_false h1
+      rw [h2, planPre_nil, List.nil_append, e1]
+      simpa using ih1 h1 hsl h rest
+    · have e1 := isEmpty_eq_false h1
+      have e2 := isEmpty_eq_false h2
+      rw [e1, e2]
+      simp only [if_false, Bool.false_eq_true]
+      rw [ih1 h1 hsl, ih2 h2 hsr]
+
+theorem stackRun_prefix {h r : Nat} {a b : List Chunk} (hr : stackRun h (a ++ b) = some r) :
+    (stackRun h a).isSome = true := by
+  induction a generalizing h with
+  | nil => simp [stackRun]
+  | cons c a ih =>
+    cases c with
+    | parent n ir l rr x =>
+      simp only [List.cons_append, stackRun] at hr ⊢
+      split at hr
+      · exact absurd hr (by simp)
+      · rename_i h0; rw [if_neg h0]; exact ih hr
+    | leaf s z ir x =>
+      simp only [List.cons_append, stackRun] at hr ⊢
+      split at hr
+      · exact absurd hr (by simp)
+      · rename_i h0; rw [if_neg h0]; exact ih hr
+
+theorem stackRun_leftPlan (g : Geo size bs filled) {L k : Nat} {rs : Ranges}
+    (hlt : nodeOf k L < filled) (hne : lq bs L k rs ≠ []) (h : Nat) (rest : List Chunk) :
+    stackRun (h + 1) (leftPlan size bs ml filled root L k rs ++ rest) = stackRun h rest := by
+  cases L with
+  | zero =>
+    rw [leftPlan_zero, isEmpty_eq_false hne]
+    exact stackRun_leaf ..
+  | succ L =>
+    rw [leftPlan_succ]
+    refine stackRun_planPre g L (2 * k) _ hne ?_ h rest
+    rw [Bits.startOf_left]
+    exact Nat.lt_of_le_of_lt (startOf_le_nodeOf k (L + 1)) hlt
+
+theorem stackRun_rightPlan (g : Geo size bs filled) {L k : Nat} {rs : Ranges}
+    (hlt : nodeOf k L < filled) (hne : rq bs L k rs ≠ []) (h : Nat) (rest : List Chunk) :
+    stackRun (h + 1) (rightPlan size bs ml filled root L k rs ++ rest) = stackRun h rest := by
+  cases L with
+  | zero =>
+    rw [rightPlan_zero, isEmpty_eq_false hne]
+    exact stackRun_leaf ..
+  | succ L =>
+    rw [rightPlan_succ]
+    exact stackRun_planPre g L (2 * k + 1) _ hne (g.right_exists hlt) h rest
+
+/-! ## (5) root flag -/
+
+theorem nodeOf_beq_false {L h k : Nat} (hL : L < h) : (nodeOf k L == nodeOf 0 h) = false := by
+  rw [beq_eq_false_iff_ne]
+  intro e
+  have := (C18.nodeOf_inj e).2
+  omega
+
+theorem rootFlag_below {h L k : Nat} {rs : Ranges} (hL : L < h) :
+    ∀ c ∈ planPre size bs ml filled (nodeOf 0 h) L k rs, c.rootFlag = false := by
+  revert hL
+  refine planPre_induct (size := size) (bs := bs) (ml := ml) (filled := filled)
+    (root := nodeOf 0 h)
+    (P := fun L _ _ p => L < h → ∀ c ∈ p, c.rootFlag = false) ?_ ?_ ?_ ?_ ?_ ?_ ?_ L k rs
+  · intro L k _ c hc; exact absurd hc (by simp)
+  · intro k rs _ _ _ c hc; exact absurd hc (by simp)
+  · intro L k rs _ _ ih hL c hc; exact ih (by omega) c hc
+  · intro L k rs _ _ _ hL c hc
+    rw [List.mem_singleton] at hc; subst hc
+    simp [nodeLeaf, Chunk.rootFlag, nodeOf_beq_false hL]
+  · intro k rs _ _ _ _ hL c hc
+    rw [List.mem_singleton] at hc; subst hc
+    simp [nodeLeaf, Chunk.rootFlag, nodeOf_beq_false hL]
+  · intro k rs _ _ _ _ hL c hc
+    rw [List.mem_cons, List.mem_append] at hc
+    rcases hc with hc | hc | hc
+    · subst hc; simp [nodeParent, Chunk.rootFlag, nodeOf_beq_false hL]
+    · split at hc
+      · exact absurd hc (by simp)
+      · rw [List.mem_singleton] at hc; subst hc; rfl
+    · split at hc
+      · exact absurd hc (by simp)
+      · rw [List.mem_singleton] at hc; subst hc; rfl
+  · intro L k rs _ _ _ ih1 ih2 hL c hc
+    rw [List.mem_cons, List.mem_append] at hc
+    rcases hc with hc | hc | hc
+    · subst hc; simp [nodeParent, Chunk.rootFlag, nodeOf_beq_false hL]
+    · exact ih1 (by omega) c hc
+    · exact ih2 (by omega) c hc
+
+theorem rootFlag_top {h : Nat} {rs : Ranges} (hne : rs ≠ []) (hlt : nodeOf 0 h < filled) :
+    ∃ c tail, planPre size bs ml filled (nodeOf 0 h) h 0 rs = c :: tail ∧ c.rootFlag = true ∧
+      ∀ c' ∈ tail, c'.rootFlag = false := by
+  by_cases hq : queryLeaf bs ml h rs = true
+  · refine ⟨_, [], planPre_queryLeaf hne hlt hq, ?_, ?_⟩
+    · simp [nodeLeaf, Chunk.rootFlag]
+    · intro c hc; exact absurd hc (by simp)
+  · have hq : queryLeaf bs ml h rs = false := by simpa using hq
+    cases h with
+    | zero =>
+      by_cases hh : toBytes (midOf 0 bs) < size
+      · refine ⟨_, _, planPre_zero_parent hne hlt hq hh, ?_, ?_⟩
+        · simp [nodeParent, Chunk.rootFlag]
+        · intro c hc
+          rw [List.mem_append] at hc
+          rcases hc with hc | hc
+          · split at hc
+            · exact absurd hc (by simp)
+            · rw [List.mem_singleton] at hc; subst hc; rfl
+          · split at hc
+            · exact absurd hc (by simp)
+            · rw [List.mem_singleton] at hc; subst hc; rfl
+      · refine ⟨_, [], planPre_zero_half hne hlt hq (by omega), ?_, ?_⟩
+        · simp [nodeLeaf, Chunk.rootFlag]
+        · intro c hc; exact absurd hc (by simp)
+    | succ h =>
+      refine ⟨_, _, planPre_succ hne hlt hq, ?_, ?_⟩
+      · simp [nodeParent, Chunk.rootFlag]
+      · intro c hc
+        rw [List.mem_append] at hc
+        rcases hc with hc | hc
+        · exact rootFlag_below (Nat.lt_succ_self h) c hc
+        · exact rootFlag_below (Nat.lt_succ_self h) c hc
+
+/-! ## (6) leaf spans -/
+
+/-- the chunk spans `[start, start + max 1 (chunks of size))` of the leaf items -/
+def leafSpans : List Chunk → List (Nat × Nat)
+  | [] => []
+  | .leaf s z _ _ :: rest => (s, s + max 1 (chunksOf z)) :: leafSpans rest
+  | .parent .. :: rest => leafSpans rest
+
+/-- all spans are non-empty, inside `[lo, hi)`, ordered and disjoint -/
+def SpansIn (lo hi : Nat) (l : List (Nat × Nat)) : Prop :=
+  (∀ p ∈ l, lo ≤ p.1 ∧ p.1 < p.2 ∧ p.2 ≤ hi) ∧ l.Pairwise (fun a b => a.2 ≤ b.1)
+
+theorem leafSpans_append (a b : List Chunk) : leafSpans (a ++ b) = leafSpans a ++ leafSpans b := by
+  induction a with
+  | nil => rfl
+  | cons c a ih =>
+    cases c with
+    | parent n ir l r x => simpa [leafSpans] using ih
+    | leaf s z ir x => simpa [leafSpans] using ih
+
+theorem SpansIn_nil (lo hi : Nat) : SpansIn lo hi [] :=
+  ⟨fun p hp => absurd hp (by simp), List.Pairwise.nil⟩
+
+theorem SpansIn_singleton {lo hi a b : Nat} (h1 : lo ≤ a) (h2 : a < b) (h3 : b ≤ hi) :
+    SpansIn lo hi [(a, b)] := by
+  refine ⟨fun p hp => ?_, List.pairwise_singleton _ _⟩
+  rw [List.mem_singleton] at hp; subst hp
+  exact ⟨h1, h2, h3⟩
+
+theorem SpansIn_append {lo mid hi : Nat} {A B : List (Nat × Nat)} (h1 : lo ≤ mid) (h2 : mid ≤ hi)
+    (hA : SpansIn lo mid A) (hB : SpansIn mid hi B) : SpansIn lo hi (A ++ B) := by
+  refine ⟨fun p hp => ?_, ?_⟩
+  · rw [List.mem_append] at hp
+    rcases hp with hp | hp
+    · have := hA.1 p hp; omega
+    · have := hB.1 p hp; omega
+  · rw [List.pairwise_append]
+    refine ⟨hA.2, hB.2, fun a ha b hb => ?_⟩
+    have := hA.1 a ha
+    have := hB.1 b hb
+    omega
+
+theorem SpansIn_mono {lo lo' hi hi' : Nat} {l : List (Nat × Nat)} (h1 : lo' ≤ lo) (h2 : hi ≤ hi')
+    (h : SpansIn lo hi l) : SpansIn lo' hi' l := by
+  refine ⟨fun p hp => ?_, h.2⟩
+  have := h.1 p hp
+  omega
+
+/-- strictly increasing starts, as a corollary of `SpansIn` -/
+theorem spans_starts_increasing {lo hi : Nat} {l : List (Nat × Nat)} (h : SpansIn lo hi l) :
+    l.Pairwise (fun a b => a.1 < b.1) := by
+  refine List.Pairwise.imp_of_mem ?_ h.2
+  intro a b ha _ hab
+  have := h.1 a ha
+  omega
+
+/-- a leaf clipped to the blob has at most as many chunks as its untruncated span -/
+theorem clipped_span_le {s e size : Nat} (h : s < e) :
+    s + max 1 (chunksOf (min (toBytes e) size - toBytes s)) ≤ e := by
+  unfold chunksOf toBytes
+  split <;> omega
+
+theorem full_span_eq {s m : Nat} (h : s < m) :
+    s + max 1 (chunksOf (toBytes m - toBytes s)) = m := by
+  unfold chunksOf toBytes
+  split <;> omega
+
+theorem spans_nodeLeaf (L k : Nat) (rs : Ranges) :
+    SpansIn (startOf k (L + bs)) (endOf k (L + bs)) (leafSpans [nodeLeaf size bs root L k rs]) := by
+  have hlt : startOf k (L + bs) < endOf k (L + bs) :=
+    Nat.lt_trans (startOf_lt_midOf _ _) (midOf_lt_endOf _ _)
+  exact SpansIn_singleton (Nat.le_refl _) (by omega) (clipped_span_le hlt)
+
+theorem spans_leftLeaf (k : Nat) (rs : Ranges) :
+    SpansIn (startOf k (0 + bs)) (midOf k (0 + bs))
+      (leafSpans (if (lq bs 0 k rs).isEmpty then [] else [leftLeaf bs k rs])) := by
+  rw [Nat.zero_add]
+  split
+  · exact SpansIn_nil _ _
+  · have hlt := startOf_lt_midOf k bs
+    exact SpansIn_singleton (Nat.le_refl _) (by omega) (Nat.le_of_eq (full_span_eq hlt))
+
+theorem spans_rightLeaf (k : Nat) (rs : Ranges) :
+    SpansIn (midOf k (0 + bs)) (endOf k (0 + bs))
+      (leafSpans (if (rq bs 0 k rs).isEmpty then [] else [rightLeaf size bs k rs])) := by
+  rw [Nat.zero_add]
+  split
+  · exact SpansIn_nil _ _
+  · have hlt := midOf_lt_endOf k bs
+    exact SpansIn_singleton (Nat.le_refl _) (by omega) (clipped_span_le hlt)
+
+/-- the leaf spans of a plan are inside the node's chunk range, non-empty, ordered, disjoint -/
+theorem spans_planPre (_g : Geo size bs filled) (L k : Nat) (rs : Ranges) :
+    SpansIn (startOf k (L + bs)) (endOf k (L + bs))
+      (leafSpans (planPre size bs ml filled root L k rs)) := by
+  refine planPre_induct (size := size) (bs := bs) (ml := ml) (filled := filled) (root := root)
+    (P := fun L k _ p => SpansIn (startOf k (L + bs)) (endOf k (L + bs)) (leafSpans p))
+    ?_ ?_ ?_ ?_ ?_ ?_ ?_ L k rs
+  · intro L k; exact SpansIn_nil _ _
+  · intro k rs _ _; exact SpansIn_nil _ _
+  · intro L k rs _ _ ih
+    have e : L + 1 + bs = L + bs + 1 := by omega
+    rw [e]
+    rw [Bits.startOf_left, Bits.endOf_left] at ih
+    exact SpansIn_mono (Nat.le_refl _) (Nat.le_of_lt (midOf_lt_endOf _ _)) ih
+  · intro L k rs _ _ _; exact spans_nodeLeaf L k rs
+  · intro k rs _ _ _ _; exact spans_nodeLeaf 0 k rs
+  · intro k rs _ _ _ _
+    show SpansIn _ _ (leafSpans (_ ++ _))
+    rw [leafSpans_append]
+    exact SpansIn_append (Nat.le_of_lt (startOf_lt_midOf _ _)) (Nat.le_of_lt (midOf_lt_endOf _ _))
+      (spans_leftLeaf k rs) (spans_rightLeaf k rs)
+  · intro L k rs _ _ _ ih1 ih2
+    show SpansIn _ _ (leafSpans (_ ++ _))
+    rw [leafSpans_append]
+    have e : L + 1 + bs = L + bs + 1 := by omega
+    rw [e]
+    rw [Bits.startOf_left, Bits.endOf_left] at ih1
+    rw [Bits.startOf_right, Bits.endOf_right] at ih2
+    exact SpansIn_append (Nat.le_of_lt (startOf_lt_midOf _ _)) (Nat.le_of_lt (midOf_lt_endOf _ _))
+      ih1 ih2
+
+theorem spans_leftPlan (g : Geo size bs filled) {L k : Nat} {rs : Ranges}
+    (_hlt : nodeOf k L < filled) :
+    SpansIn (startOf k (L + bs)) (midOf k (L + bs))
+      (leafSpans (leftPlan size bs ml filled root L k rs)) := by
+  cases L with
+  | zero => exact spans_leftLeaf k rs
+  | succ L =>
+    have h := spans_planPre (ml := ml) (root := root) g L (2 * k) (lq bs (L + 1) k rs)
+    rw [Bits.startOf_left, Bits.endOf_left] at h
+    have e : L + 1 + bs = L + bs + 1 := by omega
+    rw [e, leftPlan_succ]; exact h
+
+theorem spans_rightPlan (g : Geo size bs filled) {L k : Nat} {rs : Ranges}
+    (_hlt : nodeOf k L < filled) :
+    SpansIn (midOf k (L + bs)) (endOf k (L + bs))
+      (leafSpans (rightPlan size bs ml filled root L k rs)) := by
+  cases L with
+  | zero => exact spans_rightLeaf k rs
+  | succ L =>
+    have h := spans_planPre (ml := ml) (root := root) g L (2 * k + 1) (rq bs (L + 1) k rs)
+    rw [Bits.startOf_right, Bits.endOf_right] at h
+    have e : L + 1 + bs = L + bs + 1 := by omega
+    rw [e, rightPlan_succ]; exact h
+
+theorem nodeLeaf_in_blob (g : Geo size bs filled) {L k : Nat} (hlt : nodeOf k L < filled) :
+    toBytes (startOf k (L + bs)) +
+      (min (toBytes (endOf k (L + bs))) size - toBytes (startOf k (L + bs))) ≤ size := by
+  have := g.start_le (Nat.lt_of_le_of_lt (startOf_le_nodeOf k L) hlt)
+  omega
+
+/-- every leaf lies inside the blob -/
+theorem leaf_in_blob (g : Geo size bs filled) (L k : Nat) (rs : Ranges) :
+    ∀ s z r x, Chunk.leaf s z r x ∈ planPre size bs ml filled root L k rs →
+      toBytes s + z ≤ size := by
+  refine planPre_induct (size := size) (bs := bs) (ml := ml) (filled := filled) (root := root)
+    (P := fun _ _ _ p => ∀ s z r x, Chunk.leaf s z r x ∈ p → toBytes s + z ≤ size)
+    ?_ ?_ ?_ ?_ ?_ ?_ ?_ L k rs
+  · intro L k s z r x h; exact absurd h (by simp)
+  · intro k rs _ _ s z r x h; exact absurd h (by simp)
+  · intro L k rs _ _ ih; exact ih
+  · intro L k rs _ hlt _ s z r x h
+    simp only [nodeLeaf, List.mem_singleton, Chunk.leaf.injEq] at h
+    obtain ⟨rfl, rfl, _, _⟩ := h
+    exact nodeLeaf_in_blob g hlt
+  · intro k rs _ hlt _ _ s z r x h
+    simp only [nodeLeaf, List.mem_singleton, Chunk.leaf.injEq] at h
+    obtain ⟨rfl, rfl, _, _⟩ := h
+    exact nodeLeaf_in_blob g hlt
+  · intro k rs _ _ _ hh s z r x h
+    have h1 := startOf_lt_midOf k bs
+    unfold toBytes at hh
+    rw [List.mem_cons, List.mem_append] at h
+    rcases h with h | h | h
+    · simp [nodeParent] at h
+    · split at h
+      · exact absurd h (by simp)
+      · simp only [leftLeaf, List.mem_singleton, Chunk.leaf.injEq] at h
+        obtain ⟨rfl, rfl, _, _⟩ := h
+        unfold toBytes; omega
+    · split at h
+      · exact absurd h (by simp)
+      · simp only [rightLeaf, List.mem_singleton, Chunk.leaf.injEq] at h
+        obtain ⟨rfl, rfl, _, _⟩ := h
+        unfold toBytes; omega
+  · intro L k rs _ _ _ ih1 ih2 s z r x h
+    rw [List.mem_cons, List.mem_append] at h
+    rcases h with h | h | h
+    · simp [nodeParent] at h
+    · exact ih1 s z r x h
+    · exact ih2 s z r x h
+
+/-! ## (7) flags of a parent item -/
+
+/-- the flags of a parent item are those of `split(ranges, node)` of the model -/
+theorem flags_item (g : Geo size bs filled) {L0 k0 : Nat} {rs0 : Ranges} {node : Nat}
+    {ir lf rf : Bool} {rs : Ranges}
+    (h : Chunk.parent node ir lf rf rs ∈ planPre size bs ml filled root L0 k0 rs0) :
+    lf = !(Ranges.splitNode rs node).1.isEmpty ∧ rf = !(Ranges.splitNode rs node).2.isEmpty := by
+  obtain ⟨pre, tail, e⟩ := List.append_of_mem h
+  obtain ⟨L, k, post, _, _, hlt, _, _, hp, _⟩ := parent_occurrence e
+  simp only [nodeParent, Chunk.parent.injEq] at hp
+  obtain ⟨rfl, _, rfl, rfl, _⟩ := hp
+  rw [splitNode_eq bs rs (g.level_le hlt)]
+  exact ⟨rfl, rfl⟩
+
+/-
+Summary.  Proved (no OPEN items): planPre_parent, leftPlan_ne_nil_iff, rightPlan_ne_nil_iff,
+parent_occurrence, stackRun_planPre, stackRun_prefix, stackRun_leftPlan, stackRun_rightPlan,
+rootFlag_below, rootFlag_top, leafSpans_append, SpansIn_append, SpansIn_mono, spans_planPre,
+spans_leftPlan, spans_rightPlan, leaf_in_blob, spans_starts_increasing, flags_item.
+Unused (kept for a uniform calling convention, underscore-named): the `Geo` argument of
+`leftPlan_ne_nil_iff` and `spans_planPre`, the `nodeOf k L < filled` argument of
+`spans_leftPlan` / `spans_rightPlan`.
+-/
 
 end Bao.PlanPre
